@@ -70,6 +70,13 @@ impl Rng {
 
 pub const ALPHABET: &[char] = &['a', 'b', '1', 'あ', 'ア', '漢', '\u{2000b}', 'é', ' '];
 
+pub const CLASS_EDGES: &[u32] = &[
+    0x2F, 0x30, 0x39, 0x3A, 0x40, 0x41, 0x5A, 0x5B, 0x5F, 0x60, 0x61, 0x7A, 0x7B, 0xFF0F, 0xFF10, 0xFF19, 0xFF1A, 0xFF20, 0xFF21, 0xFF3A, 0xFF3B,
+    0xFF40, 0xFF41, 0xFF5A, 0xFF5B, 0x303F, 0x3040, 0x3041, 0x3096, 0x3097, 0x309F, 0x30A0, 0x30FA, 0x30FB, 0x30FC, 0x30FF, 0x3100, 0xFF65, 0xFF66,
+    0xFF9F, 0xFFA0, 0x33FF, 0x3400, 0x4DBF, 0x4DC0, 0x4DFF, 0x4E00, 0x9FFF, 0xA000, 0xF8FF, 0xF900, 0xFAFF, 0xFB00, 0x1FFFF, 0x20000, 0x2A6DF,
+    0x2A6E0, 0x2A6FF, 0x2A700, 0x2B73F, 0x2B740, 0x2B81F, 0x2B820, 0x2CEAF, 0x2CEB0, 0x2F7FF, 0x2F800, 0x2FA1F, 0x2FA20,
+];
+
 pub fn char_type(c: char) -> u8 {
     match u32::from(c) {
         0x30..=0x39 | 0xFF10..=0xFF19 => 1,
@@ -89,6 +96,13 @@ fn rand_chars(r: &mut Rng, len: usize) -> Vec<char> {
 pub fn gen_text(r: &mut Rng, max_len: usize) -> String {
     let n = 1 + r.below(max_len);
     let mut t: String = (0..n).map(|_| ALPHABET[r.below(ALPHABET.len())]).collect();
+    // now and then one character from the EDGES of the character classes (the last / first code point of every range of
+    // the classification and its outer neighbours): a range end off by one, or a "simplified" range, shows only there
+    if r.below(5) == 0 {
+        let c = char::from_u32(CLASS_EDGES[r.below(CLASS_EDGES.len())]).unwrap();
+        let k = r.below(n);
+        t = t.chars().enumerate().map(|(i, x)| if i == k { c } else { x }).collect();
+    }
     // now and then a leading byte order mark (an ordinary character for the tokenizer; "helpful" special handling
     // of it desynchronises text and position maps)
     if r.below(8) == 0 {
